@@ -47,6 +47,8 @@ type loopInfo struct {
 	header  *ssa.BasicBlock
 	body    map[int]bool
 	invs    []*Clause
+	decrs   []*Clause
+	decrHead []*T
 	phis    []*ssa.Phi
 	state   *State // state at header after havoc
 	hvars   map[string]*T
@@ -189,6 +191,11 @@ func (v *fnVC) computeOrder() {
 			for _, c := range v.ct.Invs {
 				if c.Loop == i {
 					li.invs = append(li.invs, c)
+				}
+			}
+			for _, c := range v.ct.Decrs {
+				if c.Loop == i {
+					li.decrs = append(li.decrs, c)
 				}
 			}
 		}
@@ -589,14 +596,17 @@ func (v *fnVC) loopHeader(b *ssa.BasicBlock, st *State) *State {
 		for i := len(alts) - 2; i >= 0; i-- {
 			t = tIte(conds[i], alts[i], t)
 		}
-		entryVars[phi.Comment] = t.withGo(phi.Type())
+		entryVars[phiName(phi)] = t.withGo(phi.Type())
 		entryVars["%"+phi.Name()] = t
 	}
 	for i, c := range li.invs {
 		x := v.exFor(pre, v.entry, nil)
 		x.resolve = v.resolver(b, pre, entryVars)
 		x.resolveAddr = v.addrResolver(b)
-		g := x.Bool(c.Expr)
+		g := v.tryBool(x, c, li.ordinal)
+		if g == nil {
+			continue
+		}
 		v.oblige("inv-entry", fmt.Sprintf("loop%d.inv%s:entry", li.ordinal, clauseTag(c, i)), v.propsOf(c), c.Expr, v.pos(b.Instrs[0].Pos()), v.reach[b.Index], g, pre)
 	}
 	// havoc everything the body may write (all heaps: bodies are small; calls havoc anyway)
@@ -618,16 +628,54 @@ func (v *fnVC) loopHeader(b *ssa.BasicBlock, st *State) *State {
 		t.GoT = phi.Type()
 		v.vals[phi] = t
 		v.assumeWellFormed(t, hst)
-		li.hvars[phi.Comment] = t
+		li.hvars[phiName(phi)] = t
 	}
 	for _, c := range li.invs {
 		x := v.exFor(hst, v.entry, nil)
 		x.resolve = v.resolver(b, hst, nil)
 		x.resolveAddr = v.addrResolver(b)
-		e.assume(tImp(v.reach[b.Index], x.Bool(c.Expr)))
+		if g := v.tryBool(x, c, li.ordinal); g != nil {
+			e.assume(tImp(v.reach[b.Index], g))
+		}
+	}
+	// termination measures: value at the loop head of an arbitrary iteration
+	li.decrHead = nil
+	for _, c := range li.decrs {
+		x := v.exFor(hst, v.entry, nil)
+		x.resolve = v.resolver(b, hst, nil)
+		x.resolveAddr = v.addrResolver(b)
+		li.decrHead = append(li.decrHead, e.define("variant", x.tr(parseSpecExpr(c.Expr), sI64)))
 	}
 	return hst
 }
+
+// tryBool translates a loop invariant; a clause that cannot be evaluated on this tree (it
+// names a variable the code no longer has) is reported as undecided once and left out, so
+// that the remaining clauses are still checked.
+func (v *fnVC) tryBool(x *Ex, c *Clause, loop int) (g *T) {
+	defer func() {
+		if r := recover(); r != nil {
+			se, ok := r.(specErr)
+			if !ok {
+				panic(r)
+			}
+			msg := fmt.Sprintf("loop %d invariant %q cannot be evaluated: %s", loop, c.Expr, se.msg)
+			for _, u := range v.unsup {
+				if u == msg {
+					g = nil
+					return
+				}
+			}
+			v.unsup = append(v.unsup, msg)
+			g = nil
+		}
+	}()
+	return x.Bool(c.Expr)
+}
+
+// phiName is the source-level name of a loop-carried variable as specs write it
+// (rangeint.iter -> rangeint_iter).
+func phiName(phi *ssa.Phi) string { return strings.ReplaceAll(phi.Comment, ".", "_") }
 
 func clauseTag(c *Clause, i int) string {
 	if c.Name != "" {
@@ -653,8 +701,8 @@ func (v *fnVC) backEdge(u, h *ssa.BasicBlock, ec *T, st *State) {
 	for _, phi := range li.phis {
 		for i, p := range h.Preds {
 			if p == u {
-				vars[phi.Comment] = v.val(phi.Edges[i]).withGo(phi.Type())
-				vars["%"+phi.Name()] = vars[phi.Comment]
+				vars[phiName(phi)] = v.val(phi.Edges[i]).withGo(phi.Type())
+				vars["%"+phi.Name()] = vars[phiName(phi)]
 			}
 		}
 	}
@@ -662,8 +710,23 @@ func (v *fnVC) backEdge(u, h *ssa.BasicBlock, ec *T, st *State) {
 		x := v.exFor(st, v.entry, nil)
 		x.resolve = v.resolver(h, st, vars)
 		x.resolveAddr = v.addrResolver(h)
-		g := x.Bool(c.Expr)
+		g := v.tryBool(x, c, li.ordinal)
+		if g == nil {
+			continue
+		}
 		v.oblige("inv-preserved", fmt.Sprintf("loop%d.inv%s:preserved@b%d", li.ordinal, clauseTag(c, i), u.Index), v.propsOf(c), c.Expr, v.pos(h.Instrs[0].Pos()), ec, g, st)
+	}
+	// termination: the measure is non-negative at the head and strictly smaller at the back edge
+	for i, c := range li.decrs {
+		if i >= len(li.decrHead) {
+			break
+		}
+		x := v.exFor(st, v.entry, nil)
+		x.resolve = v.resolver(h, st, vars)
+		x.resolveAddr = v.addrResolver(h)
+		nv := x.tr(parseSpecExpr(c.Expr), sI64)
+		g := mk(sapp("and", sapp("bvsge", li.decrHead[i].S, bvLit(0, 64)), sapp("bvslt", nv.S, li.decrHead[i].S)), sBool)
+		v.oblige("decreases", fmt.Sprintf("loop%d.decreases%s@b%d", li.ordinal, clauseTag(c, i), u.Index), v.propsOf(c), "decreases "+c.Expr, v.pos(h.Instrs[0].Pos()), ec, g, st)
 	}
 }
 
@@ -690,7 +753,7 @@ func (v *fnVC) resolver(b *ssa.BasicBlock, st *State, over map[string]*T) func(s
 		}
 		// phis of b
 		for _, in := range b.Instrs {
-			if phi, ok := in.(*ssa.Phi); ok && phi.Comment == name {
+			if phi, ok := in.(*ssa.Phi); ok && phiName(phi) == name {
 				if t, ok := v.vals[phi]; ok {
 					return t
 				}
@@ -719,7 +782,7 @@ func (v *fnVC) resolver(b *ssa.BasicBlock, st *State, over map[string]*T) func(s
 		for _, blk := range v.fn.Blocks {
 			if blk.Dominates(b) {
 				for _, in := range blk.Instrs {
-					if phi, ok := in.(*ssa.Phi); ok && phi.Comment == name {
+					if phi, ok := in.(*ssa.Phi); ok && phiName(phi) == name {
 						if t, ok := v.vals[phi]; ok {
 							return t
 						}
